@@ -209,6 +209,7 @@ extern void		vbi_init(void);
 
 extern void		vbi_transp_colormap(vbi_decoder *vbi, vbi_rgba *d, vbi_rgba *s, int entries);
 extern void             vbi_chsw_reset(vbi_decoder *vbi, vbi_nuid nuid);
+extern vbi_bool         vbi_chsw_pending(vbi_decoder *vbi);
 
 #endif /* VBI_H */
 
